@@ -262,6 +262,10 @@ def spec_C01(tier):
     s["jobs"] += j
     s["bounds"].update(b)
     s["reach"].update({"zzH_long" + k: ["end", "long-match"] for k in ("HP", "BHP", "DHP", "BDHP")})
+    j, b = copy_jobs(tier)
+    s["jobs"] += j
+    s["bounds"].update(b)
+    s["reach"].update({"zzH_copy" + k: ["end", "copy-match"] for k in ("HP", "BHP", "DHP", "BDHP")})
     return s
 
 
@@ -688,6 +692,20 @@ def long_jobs(tier):
                                             % ("" if tier == "quick" else ", 2, 3", list(d1s), "" if tier == "quick" else " (period 2/3: a second arbitrary byte 6 positions later)")}
 
 
+def copy_jobs(tier):
+    kinds = [("HP", dict(inputLen=3, hashBits=2), (1, 3)), ("BHP", dict(inputLen=3, hashBits=2), (1, 3)), ("DHP", dict(inputLen=3, inputLen2=6, hashBits=2), (3,)),
+             ("BDHP", dict(inputLen=2, inputLen2=8, hashBits=2), (1,))]
+    ds = (9, 15, 16, 23)  # same in both tiers: the wider grid has not been run clean yet
+    jobs = []
+    for kind, kp, seeds in kinds:
+        for sd in seeds:
+            for d in ds:
+                jobs.append(J("copy%s-s%d-d%d" % (kind, sd, d), "zzH_copy" + kind, params=dict(kp, o=12, L=d + 2, d=d, seed=sd), max_seconds=120))
+    return jobs, {"two-copy inputs": "arbitrary-state step: the block repeats the 12 bytes in front of it (offset 12, so no offset-1 artefacts) except for ONE arbitrary byte at block index d in %s, "
+                                     "equal bytes again behind it; base bytes are CONCRETE and pairwise distinct (byte(37k+11*seed+1), seeds per parser chosen so that the reach marker copy-match "
+                                     "is hit), the defect byte, the 7 margin bytes, WindowSize, Off and flags are symbolic; all table entries pinned to position 0 with the matching value; HashBits 2" % (list(ds),)}
+
+
 def spec_C19(tier):
     s = parse_spec(tier, "maximality: every emitted match ends at the block end or the next byte differs from the byte Offset back; BHP/BDHP: a literal directly in front "
                    "of a match never equals the byte Offset before it while that byte is buffered; run clause: a block of >= 32 bytes inside a run of one byte carries at most one "
@@ -703,6 +721,10 @@ def spec_C19(tier):
     s["bounds"].update(b)
     s["reach"].update({"zzH_run" + k: ["end", "match"] for k in ("HP", "BHP", "DHP", "BDHP", "BUP", "GSAP", "OSAP")})
     s["reach"].update({"zzH_long" + k: ["end", "long-match"] for k in ("HP", "BHP", "DHP", "BDHP")})
+    j, b = copy_jobs(tier)
+    s["jobs"] += j
+    s["bounds"].update(b)
+    s["reach"].update({"zzH_copy" + k: ["end", "copy-match"] for k in ("HP", "BHP", "DHP", "BDHP")})
     return s
 
 
